@@ -184,7 +184,16 @@ def check_case(contract, case, tier="quick"):
     returned = 0
     bounded_runs = 0
     combos = list(itertools.product(range(N + 1), repeat=len(names))) if names else [()]
-    combos.sort(key=lambda t: (sum(t), t))
+    # Order matters once the list is capped: counterexamples and canary refutations mostly need every array small but
+    # NON-EMPTY (with an empty dimension nothing is selected or written), so the diagonals (1,1,..), (2,2,..) come first,
+    # then the all-empty corner, (3,3,..), and then everything else by total length.  The search is a counterexample
+    # aid, not part of the proof; its extent is reported.
+    diag = [tuple([k] * len(names)) for k in (1, 2, 0, 3) if k <= N] if names else []
+    rest = sorted((t for t in combos if t not in diag), key=lambda t: (sum(t), t))
+    combos = (diag + rest) if names else combos
+    max_combos = 10 if tier == "quick" else 40
+    truncated = len(combos) > max_combos
+    combos = combos[:max_combos]
     for combo in combos:
         lengths = dict(zip(names, combo))
         bpaths = explore(contract, case, lengths, 10000, want_canaries=True)
@@ -210,7 +219,7 @@ def check_case(contract, case, tier="quick"):
                                "decisions": p.get("decisions")}
         if not want - set(cex) and returned and bounded_runs >= min(len(combos), 3) and all(v["refuted"] for v in canary.values()):
             break
-    summary["bounded"] = {"N": N, "length_names": names, "runs": bounded_runs, "sat_paths": sat_paths,
+    summary["bounded"] = {"N": N, "length_names": names, "runs": bounded_runs, "sat_paths": sat_paths, "length_combinations_truncated": truncated,
                           "returning_paths": returned}
     summary["canaries"] = canary
     summary["counterexamples"] = cex
